@@ -38,6 +38,8 @@ Fixpoint shape04 (n : pnode) : bool :=
   | PText _ | PComment => true
   | PTag _ _ [] [] b | PBlock b => all b
   | PCode [SExpr e] true _ => transp e
+  (* the same expression, unescaped, in a branch that is never taken (the data binds `never` to false) *)
+  | PCond (JId x) [PCode [SExpr e] false _] None => beqb x (B "never") && transp e
   | PCond c t a => cond_ok c && all t && match a with Some a' => shape04 a' | None => true end
   | PEach _ _ (JId _) b => all b
   | _ => false
@@ -68,8 +70,14 @@ Fixpoint node_nested_tpl (n : pnode) : bool :=
   | _ => false
   end.
 
+Definition never_false (d : dval) : bool :=
+  match d with
+  | DMap l => match lookup (B "never") l with Some (DBool false) | None => true | _ => false end
+  | _ => false
+  end.
+
 Definition dom04 (c : case04) : bool :=
-  forallb shape04 (c_nodes (k_case c)) && special_free (k_m c) && no_edge_ws (k_h c) && no_edge_ws (k_m c) &&
+  forallb shape04 (c_nodes (k_case c)) && forallb never_false (c_datas (k_case c)) && special_free (k_m c) && no_edge_ws (k_h c) && no_edge_ws (k_m c) &&
   negb (containsb (k_m c) (o_code (c_prod (k_case c)))).
 
 Definition oracle04 (c : case04) : bool :=
